@@ -606,6 +606,18 @@ func (p *sparser) funcKey() string {
 	for p.isOp(".") {
 		p.next()
 		sb.WriteString(".")
+		if p.isOp("(") { // pkg.(*T).M : a method of another package's type (trusted library table)
+			p.next()
+			sb.WriteString("(")
+			if p.isOp("*") {
+				p.next()
+				sb.WriteString("*")
+			}
+			sb.WriteString(p.ident())
+			p.expectOp(")")
+			sb.WriteString(")")
+			continue
+		}
 		sb.WriteString(p.ident())
 	}
 	return sb.String()
